@@ -38,16 +38,23 @@ type Dict struct{ m map[string]string }
 
 func newDict() *Dict { return &Dict{m: map[string]string{}} }
 
-func (d *Dict) add(hash []byte, desc string) {
-	k := string(hash)
+// The dictionary is per commitment domain (v1 packet, v1 ack, v2 packet, v2 ack): the domains live under
+// different store keys, and e.g. the v1 ack bytes 0x02 and a v2 acknowledgement without application
+// acknowledgements have the same hash (sha256 of the single byte 0x02).
+func (d *Dict) add(kind string, hash []byte, desc string) {
+	k := kind + "|" + string(hash)
 	if old, ok := d.m[k]; ok && old != desc {
 		panic("harness: commitment hash collision between " + old + " and " + desc)
 	}
 	d.m[k] = desc
 }
 
-func (d *Dict) get(hash string) string {
-	if s, ok := d.m[hash]; ok {
+func (d *Dict) get(kind string) func(hash string) string {
+	return func(hash string) string { return d.lookup(kind, hash) }
+}
+
+func (d *Dict) lookup(kind, hash string) string {
+	if s, ok := d.m[kind+"|"+hash]; ok {
 		return s
 	}
 	return "?" + hex.EncodeToString([]byte(hash))
@@ -84,25 +91,25 @@ func (e *Env) Learn(op lib.M) {
 	switch f {
 	case "sendV1":
 		p := channeltypes.Packet{Data: gh(op, "data"), TimeoutHeight: height(op, "th"), TimeoutTimestamp: gn(op, "tt")}
-		e.dict.add(channeltypes.CommitPacket(p), descV1(p.TimeoutTimestamp, p.TimeoutHeight, p.Data))
+		e.dict.add("c1", channeltypes.CommitPacket(p), descV1(p.TimeoutTimestamp, p.TimeoutHeight, p.Data))
 	case "recvV1":
 		if a, ok := gmo(op, "app"); ok {
 			if _, ok := a["ack"]; ok {
 				bz := gh(a, "ack")
-				e.dict.add(channeltypes.CommitAcknowledgement(bz), hex.EncodeToString(bz))
+				e.dict.add("a1", channeltypes.CommitAcknowledgement(bz), hex.EncodeToString(bz))
 			}
 		}
 	case "writeAckV1":
 		if a, ok := gmo(op, "wack"); ok {
 			bz := gh(a, "bz")
-			e.dict.add(channeltypes.CommitAcknowledgement(bz), hex.EncodeToString(bz))
+			e.dict.add("a1", channeltypes.CommitAcknowledgement(bz), hex.EncodeToString(bz))
 		}
 	case "sendV2":
 		// the destination is the registered counterparty of the source id
 		ps := payloads(glist(op, "payloads"))
 		if cp, ok := e.App.IBCKeeper.ClientV2Keeper.GetClientCounterparty(e.hctx, gs(op, "src")); ok {
 			p := channeltypesv2.Packet{DestinationClient: cp.ClientId, TimeoutTimestamp: gn(op, "tt"), Payloads: ps}
-			e.dict.add(channeltypesv2.CommitPacket(p), descV2(cp.ClientId, p.TimeoutTimestamp, ps))
+			e.dict.add("c2", channeltypesv2.CommitPacket(p), descV2(cp.ClientId, p.TimeoutTimestamp, ps))
 		}
 	case "recvV2":
 		var acks [][]byte
@@ -119,14 +126,14 @@ func (e *Env) Learn(op lib.M) {
 		// every prefix (a later payload may fail) and the sentinel
 		for i := 1; i <= len(acks); i++ {
 			ack := channeltypesv2.Acknowledgement{AppAcknowledgements: acks[:i]}
-			e.dict.add(channeltypesv2.CommitAcknowledgement(ack), descAcks(acks[:i]))
+			e.dict.add("a2", channeltypesv2.CommitAcknowledgement(ack), descAcks(acks[:i]))
 		}
 		s := channeltypesv2.Acknowledgement{AppAcknowledgements: [][]byte{channeltypesv2.ErrorAcknowledgement[:]}}
-		e.dict.add(channeltypesv2.CommitAcknowledgement(s), descAcks(s.AppAcknowledgements))
+		e.dict.add("a2", channeltypesv2.CommitAcknowledgement(s), descAcks(s.AppAcknowledgements))
 	case "writeAckV2":
 		acks := hexList(op, "acks")
 		ack := channeltypesv2.Acknowledgement{AppAcknowledgements: acks}
-		e.dict.add(channeltypesv2.CommitAcknowledgement(ack), descAcks(acks))
+		e.dict.add("a2", channeltypesv2.CommitAcknowledgement(ack), descAcks(acks))
 	}
 }
 
@@ -226,11 +233,11 @@ func (e *Env) canonIBC(k string, v *string) Entry {
 			key := pc + "/" + parts[6]
 			switch parts[0] {
 			case "commitments":
-				return Entry{"c1", key, val(e.dict.get)}
+				return Entry{"c1", key, val(e.dict.get("c1"))}
 			case "receipts":
 				return Entry{"r1", key, val(func(s string) string { return hex.EncodeToString([]byte(s)) })}
 			case "acks":
-				return Entry{"a1", key, val(e.dict.get)}
+				return Entry{"a1", key, val(e.dict.get("a1"))}
 			}
 		}
 	case parts[0] == "clients" && len(parts) >= 3:
@@ -292,11 +299,11 @@ func (e *Env) canonIBC(k string, v *string) Entry {
 			base := id[:len(id)-1]
 			switch id[len(id)-1] {
 			case 1:
-				return Entry{"c2", base + "/" + seq, val(e.dict.get)}
+				return Entry{"c2", base + "/" + seq, val(e.dict.get("c2"))}
 			case 2:
 				return Entry{"r2", base + "/" + seq, val(func(s string) string { return hex.EncodeToString([]byte(s)) })}
 			case 3:
-				return Entry{"a2", base + "/" + seq, val(e.dict.get)}
+				return Entry{"a2", base + "/" + seq, val(e.dict.get("a2"))}
 			}
 		}
 	}
